@@ -65,6 +65,11 @@ func pipeline(src []byte, ver string, onParser func(p interface{}), wrap func(io
 	}()
 	var errs []*errors.Error
 	cfg := conf.Config{Version: parseVersion(Task{"ver": ver}), ErrorHandlerFunc: func(e *errors.Error) { errs = append(errs, e) }}
+	if wrap == nil && onParser == nil && len(src) > 0 && src[len(src)-1] == 0 {
+		// (stress only) a trailing NUL marks "run this one without a callback"; the marker is not part of the input
+		src = src[:len(src)-1]
+		cfg.ErrorHandlerFunc = nil
+	}
 	var root ast.Vertex
 	if onParser != nil {
 		lx := verifshim.NewLexer(src, cfg)
@@ -237,6 +242,14 @@ func opStress(t Task) Result {
 		}
 		seq = append(seq, a)
 	}
+	// all inputs back to back in one buffer
+	var big []byte
+	offs := make([]int, len(inputs))
+	for i, in := range inputs {
+		offs[i] = len(big)
+		big = append(big, in.src...)
+	}
+	bigOrig := append([]byte(nil), big...)
 	var mu sync.Mutex
 	var bad []interface{}
 	var wg sync.WaitGroup
@@ -254,7 +267,18 @@ func opStress(t Task) Result {
 			for r := 0; r < rounds; r++ {
 				for k := range inputs {
 					i := (k*7 + w*13 + r) % len(inputs)
-					o := pipeline(append([]byte(nil), inputs[i].src...), inputs[i].ver, nil, nil)
+					var o pipeOut
+					switch (w + r + k) % 3 {
+					case 0:
+						// the input is a window into one buffer shared by all goroutines (read-only for everybody)
+						o = pipeline(big[offs[i]:offs[i]+len(inputs[i].src)], inputs[i].ver, nil, nil)
+					case 1:
+						// no error callback installed
+						o = pipeline(append(append([]byte(nil), inputs[i].src...), 0), inputs[i].ver, nil, nil)
+						o.errs = seq[i].errs
+					default:
+						o = pipeline(append([]byte(nil), inputs[i].src...), inputs[i].ver, nil, nil)
+					}
 					if d := o.diff(seq[i]); d != "" {
 						mu.Lock()
 						if len(bad) < 5 {
@@ -267,5 +291,8 @@ func opStress(t Task) Result {
 		}(w)
 	}
 	wg.Wait()
+	if !bytes.Equal(big, bigOrig) {
+		bad = append(bad, map[string]interface{}{"what": "shared-input-buffer-written"})
+	}
 	return Result{"bad": bad, "pipelines": g * rounds * len(inputs)}
 }
